@@ -37,6 +37,7 @@ M    == 65536
 Half == 32768
 WLen == <<10000, 30000, 300000>>   \* window lengths in ms, shortest first
 Win  == 1..3
+Zero3 == [i \in Win |-> 0]
 
 \* unit scaling of the public meters: value = rate * Scale[1] / Scale[2]
 KbpsScale == <<8, 1000>>           \* counter counts bytes; reported in kbit/s
@@ -122,15 +123,27 @@ Observe(dt, mv) ==
      /\ (AutoStart => started)
      /\ now' = t /\ cnt' = c /\ steps' = steps + 1
      /\ IF c = 0                       \* a zero counter is not sampled at all
-          THEN /\ win' = win
-               /\ ev' = [kind |-> "observe", fired |-> {}, first |-> FALSE, alt |-> [i \in Win |-> 0]]
+          THEN LET \* windows whose length has elapsed: the library does not sample a zero
+                   \* counter; a meter that did would see the counter going backwards
+                   m == IF win[1].c = 0 THEN {} ELSE {i \in Win : Elapsed(i, t)}
+               IN
+               /\ win' = win
+               /\ ev' = [kind |-> "observe", fired |-> {}, may |-> m, first |-> FALSE,
+                         num |-> [i \in Win |-> IF i \in m THEN SampleOne(i, t, c).num ELSE 0],
+                         alt |-> [i \in Win |-> IF i \in m THEN AltNum(win[i].c, c) ELSE 0]]
         ELSE IF win[1].c = 0           \* first non-zero observation: every window starts here
           THEN /\ win' = [i \in Win |-> [win[i] EXCEPT !.c = c, !.last = t]]
-               /\ ev' = [kind |-> "observe", fired |-> {}, first |-> TRUE, alt |-> [i \in Win |-> 0]]
-        ELSE LET f == Cascade(t) IN
+               /\ ev' = [kind |-> "observe", fired |-> {}, may |-> {}, first |-> TRUE, num |-> Zero3, alt |-> Zero3]
+        ELSE LET f == Cascade(t)
+                 \* windows whose own length has elapsed but which are not consulted
+                 \* because a shorter window did not sample
+                 m == {i \in Win \ f : Elapsed(i, t)}
+             IN
                /\ win' = [i \in Win |-> IF i \in f THEN SampleOne(i, t, c) ELSE win[i]]
-               /\ ev' = [kind |-> "observe", fired |-> f, first |-> FALSE,
-                         alt |-> [i \in Win |-> IF i \in f THEN AltNum(win[i].c, c) ELSE 0]]
+               /\ ev' = [kind |-> "observe", fired |-> f, may |-> m, first |-> FALSE,
+                         \* the rate numerator window i reports if it samples now
+                         num |-> [i \in Win |-> IF i \in f \cup m THEN SampleOne(i, t, c).num ELSE 0],
+                         alt |-> [i \in Win |-> IF i \in f \cup m THEN AltNum(win[i].c, c) ELSE 0]]
      /\ avg0' = r[1] /\ t0' = r[2] /\ avg' = r[3]
      /\ g0' = IF g0.c = 0 /\ c # 0 THEN [c |-> c, t |-> t] ELSE g0
      /\ UNCHANGED started
@@ -185,7 +198,11 @@ BackwardsZero ==
 
 \* "the last full window": once the meter runs, a window samples at an observation
 \* exactly when its full length has elapsed since its previous sample and every
-\* shorter window sampled too; a window that does not sample keeps its rate
+\* shorter window sampled too; a window that does not sample keeps its rate.
+\* (The property itself is silent on the windows in ev.may - own length elapsed,
+\* but not consulted because a shorter window did not sample (the library's
+\* cascade) or because the counter reads 0 (the library does not sample then).
+\* The replay accepts both outcomes for them.)
 WindowRule ==
   [][(Observed' /\ cnt' # 0 /\ win[1].c # 0) =>
        /\ ev'.fired = {i \in Win : \A j \in 1..i : now' - win[j].last >= WLen[j]}
